@@ -315,6 +315,9 @@ func genDecoderTrace(r *RNG, g dgen) *Trace {
 			t.Ops = append(t.Ops, op)
 		case 7:
 			op := Op{K: "Reset"}
+			if r.Chance(0.3) {
+				op.X = 1 // Init again instead of Reset
+			}
 			if g.wfaults && r.Chance(0.5) {
 				op.WP = genWPlan(r, -1, 8)
 			}
